@@ -28,7 +28,7 @@ func obRangeEnds(c *rules.Ctx, id string) {
 func init() {
 	Registry["C15"] = &Spec{
 		Explanation: "Decides structural necessary conditions of 'parsing recovers exactly the script written': (1) units - every Position.Character written while parsing is a sum of character-unit terms (ANTLR columns, utf8.RuneCount*, constants), never len(string); lines are ANTLR lines minus one; (2) a context range starts at the start token and ends at the stop token; (3) every conversion switch over the generated alternative contexts handles every alternative of its rule (no node kind dropped); (4) same-named field mapping in composite literals of the parser.",
-		NotDecided: []string{"invariance under whitespace/comments and left-associativity (lexer channel and ATN of the generated parser)", "literal values beyond the conversion rules of C13/C14", "containment of children in parents (follows from ANTLR token nesting, assumption A2)"},
+		NotDecided:  []string{"invariance under whitespace/comments and left-associativity (lexer channel and ATN of the generated parser)", "literal values beyond the conversion rules of C13/C14", "containment of children in parents (follows from ANTLR token nesting, assumption A2)"},
 		Assumptions: []string{A1, A2, A4},
 		Run: func(c *rules.Ctx) {
 			obUnits(c, "C15.1")
